@@ -50,6 +50,9 @@ type gatedBackend struct {
 	entered  atomic.Int32 // Lock() calls started
 	acquired atomic.Int32 // Lock() calls that returned successfully
 	inCS     atomic.Bool  // between a successful Lock() and Unlock()
+	// hooks of the separate-process variant (locklife_procs.go): signal through files instead of channels
+	onGate    func()
+	onAcquire func()
 }
 
 func (b *gatedBackend) Lock() error {
@@ -58,6 +61,9 @@ func (b *gatedBackend) Lock() error {
 	if err == nil {
 		b.inCS.Store(true)
 		b.acquired.Add(1)
+		if b.onAcquire != nil {
+			b.onAcquire()
+		}
 	}
 	return err
 }
@@ -68,6 +74,9 @@ func (b *gatedBackend) Get(path string) ([]byte, error) { return b.inner.Get(pat
 func (b *gatedBackend) Put(path string, data []byte) error {
 	if b.armed.CompareAndSwap(true, false) {
 		close(b.reached)
+		if b.onGate != nil {
+			b.onGate()
+		}
 		<-b.proceed
 	}
 	return b.inner.Put(path, data)
@@ -382,8 +391,9 @@ func init() {
 // ---------- generator + oracle ----------
 
 type lifeCase struct {
-	hist []string
-	s, u int
+	hist  []string
+	s, u  int
+	procs bool // every handle in its own OS process (locklife_procs.go)
 }
 
 func (c lifeCase) line() string {
@@ -391,7 +401,11 @@ func (c lifeCase) line() string {
 	if len(c.hist) > 0 {
 		h = strings.Join(c.hist, ",")
 	}
-	return fmt.Sprintf("C17.locklife %s %d.90 %d.91", h, c.s, c.u)
+	op := "C17.locklife"
+	if c.procs {
+		op = "C17.locklifeP"
+	}
+	return fmt.Sprintf("%s %s %d.90 %d.91", op, h, c.s, c.u)
 }
 
 // genLifeCase: a random history of opens / closes / read cycles / writes that leaves at least two handles open,
@@ -460,7 +474,7 @@ func judgeLockLife(r *core.Run, c lifeCase, out string) {
 			r.Fail("lockfile-deadlock", desc("handles of one key directory did not finish their updates (deadlock / hang)"))
 			return
 		}
-		panic("harness: C17.locklife: " + out)
+		panic("harness: C17.locklife: " + out + " on " + c.line())
 	}
 	r.Check(f[4] == "overlap=0", "lockfile-exclusion",
 		desc(fmt.Sprintf("two handles of ONE key directory were inside their exclusive sections at the same time: handle %d took the store lock (Lock returned) while handle %d was held between the Get and the Put of its AddKey", c.u, c.s)))
@@ -510,6 +524,19 @@ func runLockLifeCases(r *core.Run, rd *core.Rand) {
 	for i := 0; i < n; i++ {
 		cases = append(cases, genLifeCase(rd))
 	}
+	// the same with one OS process per handle: the S/T/U histories of the corpus, then random ones
+	for _, c := range lifeCorpus()[:r.N(1, 3)] {
+		c.procs = true
+		cases = append(cases, c)
+	}
+	n = r.N(1, 80)
+	for i := 0; i < n; i++ {
+		c := genLifeCase(rd)
+		c.procs = true
+		cases = append(cases, c)
+	}
+	warmLifePool(3)
+	defer drainLifePool()
 	seenWaiter, finishedWhileHeld := 0, 0
 	var waited time.Duration
 	for i, c := range cases {
@@ -521,6 +548,9 @@ func runLockLifeCases(r *core.Run, rd *core.Rand) {
 			}
 		}
 		tags := []string{"mode:locklife"}
+		if c.procs {
+			tags = []string{"mode:locklife-procs"}
+		}
 		if closes > 0 {
 			tags = append(tags, "locklife:handle-closed-before-race")
 		}
